@@ -16,7 +16,7 @@ import (
 func init() {
 	register(&Property{
 		ID: "C06",
-		Rule: "rapid-generated prefix histories (0-20 ops) that leave things in flight - calls with and without router-handled timers, kill-mode cancels, receivers with tiny queues, half-done handshakes (transport open without HELLO, pending ticket challenge), one or two realms, optional realm template - " +
+		Rule: "rapid-generated prefix histories (0-20 ops) that leave things in flight - calls with and without router-handled timers, kill-mode cancels, receivers with tiny queues, a client that stopped reading with its queue full, half-done handshakes (transport open without HELLO, pending ticket challenge), one or two realms, optional realm template - " +
 			"followed by a concurrent (par) batch of Router.Close or RemoveRealm together with 0-4 further operations (publish, call, yield, join, meta kill, drop), then late attach attempts, then 24 virtual hours; GOMAXPROCS varied, each par case executed 3 times. " +
 			"Oracle: Close/RemoveRealm returned; the worker process is alive then and after every timer has fired; every session attached to a closed realm read GOODBYE wamp.close.system_shutdown or found its transport closed; late attaches were not welcomed; " +
 			"a probe session on a realm that was not removed is served; removed realms are gone from the H1 snapshot; the bubble ends with no goroutine left. Non-trivial = a shutdown with a call timer armed, a handshake in flight, or a concurrent operation; distinct = case hash",
@@ -280,12 +280,32 @@ func genC06(t *rapid.T) *Case {
 			}
 		}
 	}
+	// a client that has stopped reading, its outbound queue full, when the shutdown comes
+	if pct(t, 35, "silentclient") && n >= 2 {
+		v := uni(t, n, "silent")
+		p := (v + 1 + uni(t, n-1, "filler")) % n
+		if !c.Sess[v].NoJoin && !c.Sess[p].NoJoin && c.Sess[v].Realm == c.Sess[p].Realm && len(c.Sess[v].AuthMeth) == len(c.Sess[p].AuthMeth) {
+			if c.Sess[v].QSize == 0 {
+				c.Sess[v].QSize = 1 + uni(t, 3, "sq")
+			}
+			c.Ops = append(c.Ops, Op{K: "subscribe", S: v, URI: "verif.fill"}, Op{K: "stall", S: v})
+			for i := 0; i < c.Sess[v].QSize+5; i++ {
+				c.Ops = append(c.Ops, Op{K: "publish", S: p, URI: "verif.fill", Args: []V{VInt(i)}})
+			}
+		}
+	}
 	// the batch
 	var batch []Op
 	if !two || pct(t, 55, "closewhole") {
 		batch = append(batch, Op{K: "router_close"})
 	} else {
 		batch = append(batch, Op{K: "remove_realm", URI: pick(t, []string{"r1", "r2"}, "which")})
+	}
+	// sessions that have not joined yet do so while the shutdown is under way
+	for i := range c.Sess {
+		if c.Sess[i].NoJoin && pct(t, 60, "joinduring") {
+			batch = append(batch, Op{K: "join", S: i})
+		}
 	}
 	nb := uni(t, 5, "nbatch")
 	for i := 0; i < nb; i++ {
